@@ -24,6 +24,8 @@
 //!   alert-rejected-effect     a banned / ignored message changed `received_alerts` or was relayed
 //!   alert-expired-sent        `connected` sent an alert whose notice_until <= now
 //!   alert-relay-duplicate     one `received` sent the message twice to one peer
+//!   alert-cancelled-accepted  an alert whose id an accepted alert of this case cancelled is accepted (while fewer than
+//!                             CANCEL_FILTER_SIZE distinct ids were cancelled, so the filter still holds it)
 use crate::common::*;
 use ckb_app_config::NetworkAlertConfig;
 use ckb_crypto::secp::{Message, Privkey};
@@ -186,6 +188,8 @@ struct World {
     signed: HashMap<(Vec<u8>, Vec<u8>), usize>,
     /// a version bound outside `major.minor.patch` was accepted in this case
     noticed_unknown: bool,
+    /// the ids cancelled by the alerts this relayer accepted, in order (for the oracle alert-cancelled-accepted)
+    cancelled_ids: Vec<u32>,
 }
 
 fn privkey(j: usize) -> Privkey {
@@ -219,7 +223,7 @@ impl World {
         time.set_faketime(1_000_000);
         let keys: Vec<Privkey> = (0..N_KEYS).map(privkey).collect();
         let (relayer, ctx) = Self::mk(&notify, &keys, 1, &[0]);
-        World { rt, notify, time, now: 1_000_000, keys, relayer, ctx, threshold: 1, members: vec![0], signed: HashMap::new(), noticed_unknown: false }
+        World { rt, notify, time, now: 1_000_000, keys, relayer, ctx, threshold: 1, members: vec![0], signed: HashMap::new(), noticed_unknown: false, cancelled_ids: vec![] }
     }
 
     fn mk(notify: &ckb_notify::NotifyController, keys: &[Privkey], m: usize, members: &[usize]) -> (AlertRelayer, Arc<Ctx>) {
@@ -239,6 +243,7 @@ impl World {
         self.threshold = m;
         self.members = members.to_vec();
         self.noticed_unknown = false;
+        self.cancelled_ids.clear();
         out.op(&format!("cfg {} {}", m, list(&members.iter().map(|x| *x as u64).collect::<Vec<_>>())), "ok");
     }
 
@@ -391,6 +396,22 @@ impl World {
         if accepted && distinct_members < self.threshold {
             out.oracle_fail("alert-unsigned-accepted", &format!("threshold {} but only {} distinct configured keys signed: {}", self.threshold, distinct_members, op));
         }
+        if accepted {
+            if let Some(a) = parsed {
+                let id: u32 = a.raw().id().into();
+                let cancel: u32 = a.raw().cancel().into();
+                let mut distinct = self.cancelled_ids.clone();
+                distinct.sort();
+                distinct.dedup();
+                // fewer distinct cancels than the filter holds: every one of them is still in it
+                if distinct.len() < 128 && self.cancelled_ids.contains(&id) {
+                    out.oracle_fail("alert-cancelled-accepted", &format!("alert {id} was cancelled by an accepted alert earlier in this case and is accepted now: {op}"));
+                }
+                if cancel > 0 {
+                    self.cancelled_ids.push(cancel);
+                }
+            }
+        }
         if !accepted && (ids1 != ids0 || !sent.is_empty()) {
             out.oracle_fail("alert-rejected-effect", &format!("verdict {verdict} but received_alerts {:?} -> {:?}, {} messages sent: {}", ids0, ids1, sent.len(), op));
         }
@@ -491,9 +512,27 @@ fn gen_version(rng: &mut Rng) -> Option<Vec<u8>> {
 }
 
 fn gen_message(rng: &mut Rng) -> Vec<u8> {
-    match rng.below(12) {
+    match rng.below(14) {
         0 => vec![],
         1 => vec![0xff],
+        11 | 12 => rng
+            .pick(&[
+                &[0x80u8][..],                 // a lone continuation byte first
+                &[0xbf, 0x41],
+                &[0xc1, 0x80],                 // C1 lead (overlong)
+                &[0xf5, 0x80, 0x80, 0x80],     // F5 lead (above U+10FFFF)
+                &[0xf8, 0x88, 0x80, 0x80, 0x80],
+                &[0xed, 0x9f, 0xbf],           // U+D7FF, the last scalar before the surrogates
+                &[0xef, 0xbf, 0xbf],
+                &[0xe1, 0x80, 0x7f],           // bad third byte
+                &[0xf1, 0x80, 0x80, 0xc0],     // bad fourth byte
+                &[0xf1, 0x80, 0x7f, 0x80],
+                &[0xf0, 0x90, 0x80, 0x80],
+                &[0xe0, 0xa0],                 // truncated three-byte form
+                &[0xdf, 0xbf, 0x41],
+                &[0x41, 0xf4, 0x8f, 0xbf],     // truncated four-byte form after ASCII
+            ])
+            .to_vec(),
         2 => vec![0xe2, 0x82, 0xac],             // EUR sign
         3 => vec![0xe2, 0x82],                   // truncated
         4 => vec![0xed, 0xa0, 0x80],             // surrogate
@@ -826,6 +865,7 @@ impl World {
         self.threshold = 1;
         self.members = vec![0];
         self.noticed_unknown = false;
+        self.cancelled_ids.clear();
         self.now = 1_000_000;
         self.time.set_faketime(1_000_000);
     }
